@@ -501,11 +501,18 @@ def same_type_buffers(ctx, rule, rel, qual, source, floor=1, attrs=None, calls=N
     fn = ctx.fn(rel, qual)
     fl = DtypeFlow(fn, attrs=attrs, calls=calls)
     n = 0
+    src = lambda atoms: bool(atoms) and all(isinstance(a, tuple) and a[0] == 'of' and a[1].startswith(source) for a in atoms)
     for s in fl.stores:
-        if not s.val or not all(isinstance(a, tuple) and a[0] == 'of' and a[1].startswith(source) for a in s.val):
+        container = not isinstance(s.target, ast.Subscript) or isinstance(s.target.value, (ast.Attribute, ast.Subscript))
+        if container:
+            # a store into a table keyed by name keeps the array as it is: what is stored under the key must itself have the source's element type
+            if isinstance(s.target, ast.Subscript) and (src(s.val) or (s.buf is not None and any(isinstance(a, tuple) and a[0] == 'of' and a[1].startswith(source) for a in s.val))):
+                n += 1
+                ctx.ob(rule, '%s::%s' % (rel, qual), 'what is stored as `%s` (%s) has their own element type (nothing was converted on the way)' % (norm(s.target)[:40], what),
+                       src(s.val), 'stored value: %s' % describe(s.val), node=s.node, key='same type stored %s %s' % (qual, norm(s.target)[:50]))
             continue
-        if not isinstance(s.target, ast.Subscript) or isinstance(s.target.value, (ast.Attribute, ast.Subscript)):
-            continue      # stores into containers (tables keyed by name) keep the value as it is
+        if not src(s.val):
+            continue
         n += 1
         ctx.ob(rule, '%s::%s' % (rel, qual), 'the buffer `%s` that receives %s has their own element type (nothing is converted on the way)' % (norm(s.target.value)[:40], what),
                s.buf == s.val, 'buffer: %s; value: %s' % (describe(s.buf), describe(s.val)), node=s.node, key='same type buffer %s %s' % (qual, norm(s.target)[:50]))
